@@ -891,10 +891,12 @@ where
             // dereferencing the cell pointer should be safe as well.
             unsafe {
                 let cell = self.item_at_offset(offset as u64);
-                let cell_ref = CellRef::from_raw(cell);
-                let size = cell_ref.total_size();
+                // The destination may overlap the cell's current bytes (a cell slides up by less
+                // than its own size): copy it out first instead of copying within the page.
+                let owned = OwnedCell::from_ref(CellRef::from_raw(cell));
+                let size = owned.total_size();
                 destination_offset -= size as usize;
-                self.write_item_to_offset(destination_offset as u64, cell_ref);
+                self.write_item_to_offset(destination_offset as u64, owned.as_cell_ref());
             }
             self.slot_array_mut()[i] = destination_offset as u16;
         }
